@@ -540,6 +540,59 @@ func genG02(repo string, w *Out) error {
 		return fmt.Errorf("writeResponse: final flush of the buffered writer not found")
 	}
 
+	// ---------------------------------------------------------------- proxy_handler.go: the http.Handler variant of the writer
+	ph, err := Parse(repo, "internal/martian/proxy_handler.go")
+	if err != nil {
+		return err
+	}
+	hwr, err := ph.Func("proxyHandler.writeResponse")
+	if err != nil {
+		return err
+	}
+	var hcases []string
+	for _, st := range hwr.Body.List {
+		sw, ok := st.(*ast.SwitchStmt)
+		if !ok || sw.Tag != nil || len(hcases) > 0 {
+			continue
+		}
+		for _, cs := range sw.Body.List {
+			cc := cs.(*ast.CaseClause)
+			label := "default"
+			if cc.List != nil {
+				label = ph.Src(cc.List[0])
+			}
+			body := ""
+			for _, bs := range cc.Body {
+				body += ph.Src(bs) + " ; "
+			}
+			hcases = append(hcases, label+" => "+strings.TrimSuffix(body, " ; "))
+		}
+	}
+	hJoined := strings.Join(hcases, " | ")
+	switch hJoined {
+	case "isTextEventStream(res) => w := newPatternFlushWriter(rw, http.NewResponseController(rw), " + sseArg + ") ; err = copyBody(w, res.Body) | " +
+		"shouldChunk(res) => w := newPatternFlushWriter(rw, http.NewResponseController(rw), " + chunkArg + ") ; err = copyBody(w, res.Body) | " +
+		"default => err = copyBody(rw, res.Body)":
+		// pattern writer on the DECODED body: chunk boundaries are invisible to it
+		w.DefBool("hw_unknown_length_flushes_every_write", false)
+	case "shouldChunk(res) => w := flushAfterWriteWriter{rw, http.NewResponseController(rw)} ; err = copyBody(w, res.Body) | " +
+		"isTextEventStream(res) => w := newPatternFlushWriter(rw, http.NewResponseController(rw), " + sseArg + ") ; err = copyBody(w, res.Body) | " +
+		"default => err = copyBody(rw, res.Body)":
+		w.DefBool("hw_unknown_length_flushes_every_write", true)
+	default:
+		return fmt.Errorf("proxyHandler.writeResponse: writer switch %q is not a shape the model knows", hcases)
+	}
+	if _, err := f.Func("flushAfterWriteWriter.Write"); err == nil {
+		fw, _ := f.Func("flushAfterWriteWriter.Write")
+		var fs []string
+		for _, st := range fw.Body.List {
+			fs = append(fs, f.Src(st))
+		}
+		if strings.Join(fs, " ; ") != "n, err = w.w.Write(p) ; if err != nil { return } ; if n > 0 { err = w.f.Flush() } ; return" {
+			return fmt.Errorf("flushAfterWriteWriter.Write: body %q is not the shape the model knows", fs)
+		}
+	}
+
 	// ---------------------------------------------------------------- proxy_connect.go
 	pcc, err := Parse(repo, "internal/martian/proxy_connect.go")
 	if err != nil {
